@@ -65,7 +65,7 @@ fn gen_long(rng: &mut Rng) -> Value {
         let t = rng.pick(&orig[orig.len() * 2 / 3..]).clone();
         let (l, c) = (t[0].as_i64().unwrap(), t[1].as_i64().unwrap() + rng.range(0, 3));   // at the start of, strictly inside, or at the end of a stretch
         let (dl, dc) = (rng.range(0, 2), rng.range(0, 5) * scale);
-        adj.push(json!([l + dl, c + dc, 0, l, c, -1, 0]));
+        adj.push(json!([l + dl, c + dc, 0, l, c, -1, if rng.chance(1, 4) { 1 } else { 0 }]));
     }
     adj.sort_by_key(|t| (t[3].as_i64().unwrap(), t[4].as_i64().unwrap()));
     adj.dedup_by_key(|t| (t[3].as_i64().unwrap(), t[4].as_i64().unwrap()));
@@ -92,7 +92,8 @@ pub fn gen(rng: &mut Rng, size: usize) -> Value {
             let (dl, dc) = (rng.range(0, 3), rng.range(0, 9));
             // an adjustment token need not name a source (or may name another one, or a name): its stretch is the same
             let (src, nm) = match rng.below(8) { 0 => (-1, -1), 1 => (1, -1), 2 => (0, 0), _ => (0, -1) };
-            json!([l + dl, c + dc, src, l, c, nm, 0])
+            // ... nor does its range flag matter (the flag of a composed token is the ORIGINAL token's)
+            json!([l + dl, c + dc, src, l, c, nm, if rng.chance(1, 3) { 1 } else { 0 }])
         }).collect();
     json!({"op": "adjust", "orig": orig, "adj": adj, "shuffle": 1 + rng.below(1000)})
 }
